@@ -570,6 +570,22 @@ func runIdxCase(o *Oracle, c *IdxCase, rep *Report, fl idxFlags) {
 	var prevStr string
 	for qi := range c.Queries {
 		q := &c.Queries[qi]
+		// the cost of a grouped query is about (groups so far, at most the rows) x (distinct values of the next column)
+		// per level: a long group-by list over columns with thousands of values costs seconds per execution and adds
+		// nothing a shorter list does not show; keep the longest prefix of the list within a fixed budget
+		if len(q.GB) > 1 {
+			groups, cost := 1, 0
+			for gi, g := range q.GB {
+				dv := max(1, st.distinct[unhx(g)])
+				cost += groups * dv
+				groups = min(groups*dv, max(1, len(rows)))
+				if cost > 2000000 && gi >= 1 {
+					q.GB = q.GB[:gi]
+					rep.Count("group-by-list-shortened")
+					break
+				}
+			}
+		}
 		toks := q.Toks()
 		uq := toQuery(q)
 		if other != nil && qi%2 == 1 {
